@@ -157,6 +157,11 @@ pub struct RxCfg {
     pub peer_isn: u32,
     pub server: bool,
     pub wscale: bool,
+    /// value of the peer's window scale option (when `wscale`)
+    pub peer_ws: u8,
+    /// the socket has served an earlier connection (which left out-of-order data behind and
+    /// was reset) before the connection under test
+    pub reuse: bool,
 }
 
 #[derive(Clone, Debug, PartialEq)]
@@ -266,7 +271,37 @@ impl Harness for Rx {
     fn new(cfg: &RxCfg) -> Rx {
         let mut w = One::new(cfg.rx, 64, 0x77);
         let p = cfg.peer_isn;
-        let ws_opt: Vec<u8> = if cfg.wscale { vec![2, 4, 5, 180, 3, 3, 0, 1] } else { vec![2, 4, 5, 180] };
+        let ws_opt: Vec<u8> = if cfg.wscale { vec![2, 4, 5, 180, 3, 3, cfg.peer_ws, 1] } else { vec![2, 4, 5, 180] };
+        if cfg.reuse {
+            // an earlier connection on the same socket object: handshake, one out-of-order
+            // segment (a hole stays open in the reassembly state), then the peer resets it
+            let q = p.wrapping_add(0x1357_9bdf);
+            let mut fr;
+            let iss0;
+            if cfg.server {
+                w.sock().listen(LPORT).unwrap();
+                fr = w.ingress_single(build_seg(q, None, wc::TCP_SYN, 1000, &ws_opt, &[]));
+                fr.extend(w.egress());
+                iss0 = fr.iter().filter_map(|f| parse_out(f)).find(|t| t.has(wc::TCP_SYN)).expect("SYN-ACK").seq;
+                w.ingress_single(build_seg(q.wrapping_add(1), Some(iss0.wrapping_add(1)), 0, 1000, &[], &[]));
+            } else {
+                assert!(w.connect());
+                fr = w.egress();
+                iss0 = fr.iter().filter_map(|f| parse_out(f)).find(|t| t.has(wc::TCP_SYN)).expect("SYN").seq;
+                w.ingress_single(build_seg(q, Some(iss0.wrapping_add(1)), wc::TCP_SYN, 1000, &ws_opt, &[]));
+            }
+            w.egress();
+            let ooo = cfg.rx.min(4).saturating_sub(1).max(1);
+            w.ingress_single(build_seg(q.wrapping_add(1 + ooo as u32), Some(iss0.wrapping_add(1)), 0, 1000, &[], &[0xee]));
+            w.egress();
+            w.ingress_single(build_seg(q.wrapping_add(1), Some(iss0.wrapping_add(1)), wc::TCP_RST, 0, &[], &[]));
+            w.egress();
+            if w.state() != State::Closed {
+                // (a server socket reset in ESTABLISHED closes; make sure it is reusable)
+                w.sock().abort();
+                w.egress();
+            }
+        }
         let mut frames;
         let iss;
         if cfg.server {
@@ -397,12 +432,19 @@ impl Harness for Rx {
 pub fn rx_configs(tier: Tier) -> Vec<(RxCfg, usize)> {
     let mut v = vec![];
     let (d_small, d_big) = if tier == Tier::Quick { (6, 3) } else { (9, 4) };
+    let base = RxCfg { name: "srv", rx: 4, l: 6, peer_isn: 0xffff_fffd, server: true, wscale: false, peer_ws: 0, reuse: false };
     for &(rx, l) in &[(2usize, 6usize), (3, 6), (4, 6), (8, 10), (64, 10)] {
-        v.push((RxCfg { name: "srv", rx, l, peer_isn: 0xffff_fffd, server: true, wscale: false }, d_small));
+        v.push((RxCfg { rx, l, ..base.clone() }, d_small));
     }
-    v.push((RxCfg { name: "cli", rx: 4, l: 6, peer_isn: 0x7fff_fffd, server: false, wscale: false }, d_small));
-    v.push((RxCfg { name: "srv0", rx: 4, l: 10, peer_isn: 0, server: true, wscale: false }, d_small));
-    v.push((RxCfg { name: "wscale", rx: 70000, l: 70010, peer_isn: 0x7fff_0000, server: true, wscale: true }, d_big));
+    v.push((RxCfg { name: "cli", peer_isn: 0x7fff_fffd, server: false, ..base.clone() }, d_small));
+    v.push((RxCfg { name: "srv0", l: 10, peer_isn: 0, ..base.clone() }, d_small));
+    v.push((RxCfg { name: "wscale", rx: 70000, l: 70010, peer_isn: 0x7fff_0000, wscale: true, ..base.clone() }, d_big));
+    // the peer announces a larger window scale than ours (ours is 0 for small buffers)
+    v.push((RxCfg { name: "peer-ws5", rx: 8, l: 12, wscale: true, peer_ws: 5, ..base.clone() }, d_small));
+    v.push((RxCfg { name: "peer-ws5-cli", rx: 8, l: 12, wscale: true, peer_ws: 5, server: false, peer_isn: 77, ..base.clone() }, d_small));
+    // socket objects that served a connection before
+    v.push((RxCfg { name: "reuse-srv", rx: 8, l: 10, reuse: true, ..base.clone() }, d_small));
+    v.push((RxCfg { name: "reuse-cli", rx: 8, l: 10, reuse: true, server: false, peer_isn: 0x7fff_fff0, ..base.clone() }, d_small));
     v
 }
 
